@@ -61,6 +61,24 @@ for u in (0.5, 0.93, 0.97, 0.995, 0.9999):
     if not ok:
         bad = [int(i) for i in _np.nonzero(~_np.isfinite(x) | ~_np.isclose(rv, src * 100.0))[0][:3]]
         fails.append({"weights": "1000 log weights ~ N(-3000, 2) (float32)", "method": "systematic", "u": u, "output_particles_that_are_no_copy_of_an_input_particle": bad, "their_x": [float(x[i]) for i in bad]})
+# log weights of LARGE MAGNITUDE with an ordinary spread (an unnormalised log likelihood of a long data set): the copy
+# counts still follow the normalised weights (nothing may treat such a collection as "uniform")
+for base in (-1.0e5, 4.0e4):
+    rel = _np.array([0.0, 0.99, 0.99] + [-0.99] * 7, dtype=_np.float64)  # N w = 1.1, 3.0, 3.0, 0.41 x 7
+    lw = jnp.asarray(base + rel, dtype=jnp.float32)
+    n = len(rel)
+    rel32 = _np.asarray(lw, dtype=_np.float64) - base
+    wn = _np.exp(rel32 - rel32.max()); wn = wn / wn.sum()
+    tr = Tr(f, ((), {}), {"x": jnp.arange(n) * 10.0}, jnp.arange(n) * 100.0, jnp.arange(n) * 1.0)
+    pc = S.ParticleCollection(traces=tr, log_weights=lw, diagnostic_weights=lw, n_samples=const(n), log_marginal_estimate=jnp.array(0.7))
+    for u in (0.1, 0.5, 0.9):
+        U["u"] = u
+        r = S.resample(pc, method="systematic")
+        src = _np.asarray(r.traces._choices["x"]) / 10.0
+        counts = [int((src == i).sum()) for i in range(n)]
+        if any(not (math.floor(n * wn[i] - 1e-3) <= counts[i] <= math.ceil(n * wn[i] + 1e-3)) for i in range(n)):
+            fails.append({"weights": "log weights %r + %r" % (base, [float(v) for v in rel32]), "method": "systematic", "u": u, "observed_copies": counts, "required_N_times_w": [round(float(n * v), 3) for v in wn]})
+            break
 # every particle count: the resampled collection has exactly N particles (an implementation that builds its N pointers
 # with floating-point arithmetic must not gain or lose one for particular N)
 for n in [1, 2, 3, 5, 7, 10, 16, 33, 49, 50, 64, 98, 100, 103, 107, 128, 161, 187, 196, 250, 500, 1000]:  # incl. counts where 1/(1/N) rounds above N
